@@ -204,9 +204,14 @@ func doGo(goCommand string) {
 
 out:
 	for i, token := range tokens {
+		// the value following a keyword; empty (and therefore not a number) when the keyword comes last
+		arg := ""
+		if i+1 < len(tokens) {
+			arg = tokens[i+1]
+		}
 		switch token {
 		case uMoveTime:
-			moveTimeMillis, err = strconv.Atoi(tokens[i+1])
+			moveTimeMillis, err = strconv.Atoi(arg)
 			if err != nil {
 				return
 			}
@@ -217,32 +222,32 @@ out:
 			// Ignore rest of params
 			break out
 		case uWtime:
-			whiteMillisLeft, err = strconv.Atoi(tokens[i+1])
+			whiteMillisLeft, err = strconv.Atoi(arg)
 			if err != nil {
 				return
 			}
 		case uBtime:
-			blackMillisLeft, err = strconv.Atoi(tokens[i+1])
+			blackMillisLeft, err = strconv.Atoi(arg)
 			if err != nil {
 				return
 			}
 		case uWinc:
-			whiteMillisIncrement, err = strconv.Atoi(tokens[i+1])
+			whiteMillisIncrement, err = strconv.Atoi(arg)
 			if err != nil {
 				return
 			}
 		case uBinc:
-			blackMillisIncrement, err = strconv.Atoi(tokens[i+1])
+			blackMillisIncrement, err = strconv.Atoi(arg)
 			if err != nil {
 				return
 			}
 		case uMovesToGo:
-			fullMovesToGo, err = strconv.Atoi(tokens[i+1])
-			if err != nil {
+			fullMovesToGo, err = strconv.Atoi(arg)
+			if err != nil || fullMovesToGo < 1 {
 				return
 			}
 		case uDepth:
-			targetDepth, err = strconv.Atoi(tokens[i+1])
+			targetDepth, err = strconv.Atoi(arg)
 			if err != nil || targetDepth < 1 {
 				return
 			}
